@@ -362,6 +362,12 @@ func checkC12(p *Prog, r *Report) {
 		}
 	}
 
+	/* 2c. The operator's next line ends the program: the loop which reads
+	the operator's lines looks at its context, without a choice being
+	involved, on every way round (ReadLine itself cannot be interrupted, so
+	this is the "at the latest"). */
+	checkC12InputLoop(p, r, rExit)
+
 	/* 3. Clean exit. */
 	sh := p.Func(hsrvPkg, "Server", "serveHTTP")
 	if nil == sh {
@@ -752,4 +758,72 @@ func isErrorsIsOfParam(pred *ssa.Function) bool {
 // only on the way to New's successful return.
 func newClosesOnlyOnError(hnew *ssa.Function, closeCall ssa.Instruction) bool {
 	return flagGuardedBy(hnew, func(i ssa.Instruction) bool { return i == closeCall }, nil)
+}
+
+// checkC12InputLoop: in lib/opshell, every way from a ReadLine which returned
+// a line to the next ReadLine passes a test of the context's Err() whose
+// "done" side does not read again.  (A select between handing the line on and
+// ctx.Done() does not do: with room in the channel both are ready and the
+// choice is random.)
+func checkC12InputLoop(p *Prog, r *Report, ru *Rule) {
+	isReadLine := func(i ssa.Instruction) bool {
+		cc := callCommon(i)
+		return nil != cc && strings.HasSuffix(calleeName(cc), "goxterm.Terminal).ReadLine")
+	}
+	n := 0
+	for _, fn := range p.Funcs() {
+		if nil == fn.Pkg || !strings.HasSuffix(fn.Pkg.Pkg.Path(), "lib/opshell") {
+			continue
+		}
+		var rls []ssa.Instruction
+		eachInstr(fn, func(i ssa.Instruction) {
+			if isReadLine(i) {
+				rls = append(rls, i)
+			}
+		})
+		for _, rl := range rls {
+			/* Only loops: can this ReadLine be reached again? */
+			if nil == (reachQ{From: locOf(rl), Target: isReadLine}).run() {
+				continue
+			}
+			n++
+			c := fmt.Sprintf("%s:input-loop#%d", fnName(fn), n)
+			/* The checks: ctx.Err() calls whose not-nil edge cannot reach a ReadLine. */
+			good := map[ssa.Instruction]bool{}
+			eachInstr(fn, func(i ssa.Instruction) {
+				cc := callCommon(i)
+				v, isVal := i.(ssa.Value)
+				if nil == cc || !isVal || !cc.IsInvoke() || "Err" != cc.Method.Name() || !typeIs(cc.Value.Type(), "context", "Context") {
+					return
+				}
+				tests := nilTestsOf(fn, v)
+				if 0 == len(tests) {
+					return
+				}
+				for _, t := range tests {
+					if nil != (reachQ{From: edgeLoc(t.If.Block(), 1-t.NilSucc), Target: isReadLine}).run() {
+						return
+					}
+				}
+				good[i] = true
+			})
+			/* Or a poll: select { case <-ctx.Done(): …; default: }. */
+			eachInstr(fn, func(i ssa.Instruction) {
+				if sel, ok := i.(*ssa.Select); ok && !sel.Blocking {
+					if idx, _ := hasDoneArm(sel); idx >= 0 {
+						good[i] = true
+					}
+				}
+			})
+			miss := reachQ{From: locOf(rl), Target: isReadLine, Block: func(i ssa.Instruction) bool { return good[i] }}.run()
+			if nil == miss {
+				ru.OK(c, posOf(rl), "every way back to ReadLine tests the context's Err() first, and does not read again once it is done")
+			} else {
+				ru.Bad(c, posOf(rl), "the operator's lines are read again without the context having been tested (a select between sending the line and ctx.Done() chooses at random when both are ready): after the listener has closed and the shell has gone the program may outlive the operator's next line")
+			}
+		}
+	}
+	if 0 == n {
+		ru.Unproven("opshell:input-loop", token.NoPos, "no loop reading the operator's lines (goxterm ReadLine) found in lib/opshell")
+	}
 }
